@@ -26,6 +26,7 @@ import z3
 __all__ = [
     "SymInt",
     "SymBool",
+    "RawInt",
     "Ctx",
     "Engine",
     "run_path",
@@ -124,12 +125,12 @@ _INT = (int,)
 
 
 def is_sym(x):
-    return isinstance(x, (SymInt, SymBool))
+    return isinstance(x, (SymInt, SymBool, RawInt))
 
 
 def cv_of(x):
     """Concrete shadow value of x (x itself when concrete)."""
-    if isinstance(x, (SymInt, SymBool)):
+    if isinstance(x, (SymInt, SymBool, RawInt)):
         return x.cv
     return x
 
@@ -668,6 +669,133 @@ class SymBool(object):
         return "<SymBool cv=%r>" % (self.cv,)
 
 
+
+# ---------------------------------------------------------------------- raw (un-normalised) integers
+class RawInt(object):
+    """Integer kept as a plain z3 term (no normal form, no intervals) with a concrete shadow value.
+
+    Used to let z3 itself decide obligations that the linear normal form would close syntactically:
+    the same repository code is run on RawInt inputs and the resulting terms are handed to the solver
+    as they are (shared sub-terms are the same z3 objects)."""
+
+    __slots__ = ("z_", "cv")
+
+    def __init__(self, z, cv):
+        self.z_ = z
+        self.cv = cv
+
+    def z(self):
+        return self.z_
+
+    @staticmethod
+    def _lift(o):
+        if isinstance(o, RawInt):
+            return o.z_, o.cv
+        if isinstance(o, bool):
+            o = int(o)
+        if isinstance(o, int):
+            return _num(o), o
+        if isinstance(o, SymInt):
+            return o.z(), o.cv
+        return None, None
+
+    def _bin(self, o, zop, cop, swap=False):
+        z, v = RawInt._lift(o)
+        if z is None:
+            return NotImplemented
+        if swap:
+            return RawInt(z3.simplify(zop(z, self.z_)), cop(v, self.cv))
+        return RawInt(z3.simplify(zop(self.z_, z)), cop(self.cv, v))
+
+    def __add__(self, o):
+        if isinstance(o, int) and o == 0:
+            return self
+        return self._bin(o, lambda a, b: a + b, lambda a, b: a + b)
+
+    __radd__ = __add__
+
+    def __sub__(self, o):
+        return self._bin(o, lambda a, b: a - b, lambda a, b: a - b)
+
+    def __rsub__(self, o):
+        return self._bin(o, lambda a, b: a - b, lambda a, b: a - b, swap=True)
+
+    def __mul__(self, o):
+        if isinstance(o, int) and o == 1:
+            return self
+        return self._bin(o, lambda a, b: a * b, lambda a, b: a * b)
+
+    __rmul__ = __mul__
+
+    def __neg__(self):
+        return RawInt(-self.z_, -self.cv)
+
+    def __pos__(self):
+        return self
+
+    def __floordiv__(self, o):
+        if not isinstance(o, int) or o <= 0:
+            raise EngineError("RawInt division only by positive constants")
+        return RawInt(self.z_ / _num(o), self.cv // o)
+
+    def __mod__(self, o):
+        if not isinstance(o, int) or o <= 0:
+            raise EngineError("RawInt modulo only by positive constants")
+        return RawInt(self.z_ % _num(o), self.cv % o)
+
+    def __lshift__(self, k):
+        return RawInt(self.z_ * _num(1 << k), self.cv << k)
+
+    def __rshift__(self, k):
+        return RawInt(self.z_ / _num(1 << k), self.cv >> k)
+
+    def __and__(self, m):
+        if isinstance(m, int) and m >= 0 and (m & (m + 1)) == 0:
+            return RawInt(self.z_ % _num(m + 1), self.cv & m)
+        raise EngineError("RawInt & only with 2^k-1 masks")
+
+    __rand__ = __and__
+
+    def __abs__(self):
+        return RawInt(z3.If(self.z_ >= 0, self.z_, -self.z_), builtins.abs(self.cv))
+
+    def _cmp(self, o, zop, cop):
+        z, v = RawInt._lift(o)
+        if z is None:
+            return NotImplemented
+        return SymBool.formula(zop(self.z_, z), cop(self.cv, v))
+
+    def __lt__(self, o):
+        return self._cmp(o, lambda a, b: a < b, lambda a, b: a < b)
+
+    def __le__(self, o):
+        return self._cmp(o, lambda a, b: a <= b, lambda a, b: a <= b)
+
+    def __gt__(self, o):
+        return self._cmp(o, lambda a, b: a > b, lambda a, b: a > b)
+
+    def __ge__(self, o):
+        return self._cmp(o, lambda a, b: a >= b, lambda a, b: a >= b)
+
+    def __eq__(self, o):
+        return self._cmp(o, lambda a, b: a == b, lambda a, b: a == b)
+
+    def __ne__(self, o):
+        return self._cmp(o, lambda a, b: a != b, lambda a, b: a != b)
+
+    def __bool__(self):
+        return bool(self != 0)
+
+    def __hash__(self):
+        raise EngineError("RawInt is not hashable")
+
+    def __index__(self):
+        raise EngineError("RawInt used as an index")
+
+    def __repr__(self):
+        return "<RawInt cv=%r>" % (self.cv,)
+
+
 # ---------------------------------------------------------------------- helpers usable by harnesses
 def ite(c, a, b):
     """if-then-else merge without forking (c may be concrete)."""
@@ -898,6 +1026,12 @@ class Ctx(object):
                 ((a, _),) = b.t.items()
                 t[a] = 1 << w
         return SymInt.mk(t, 0)
+
+    def raw_view(self, x):
+        """The same value as an un-normalised RawInt (shares the z3 constants of x)."""
+        if isinstance(x, SymInt):
+            return RawInt(x.z(), x.cv)
+        return x
 
     def sym_bool(self, name):
         b = self.sym_int(name, 0, 1)
@@ -1351,9 +1485,36 @@ class Ctx(object):
             a = a.toint()
         if isinstance(b, SymBool):
             b = b.toint()
+        if isinstance(a, RawInt) or isinstance(b, RawInt):
+            return self.prove(a == b, label)
         if is_sym(a) or is_sym(b):
             return self.prove(compare0(a - b, "=="), label)
         return self.prove(a == b, label)
+
+    def prove_all(self, conds, label="", extra=None):
+        """One query for a conjunction of obligations (each counted); falls back to one by one on failure."""
+        syms = []
+        ok = True
+        for c in conds:
+            if isinstance(c, SymInt):
+                c = compare0(c, "!=")
+            if isinstance(c, SymBool):
+                syms.append(c)
+            elif c:
+                self.proved_norm += 1
+            else:
+                ok = False
+                self.failed.append((label, self.model_inputs(), "false-by-normal-form", extra))
+        if not syms:
+            return ok
+        if all(c.cv for c in syms):
+            r, m = self.engine.check(z3.Not(z3.And([c.z() for c in syms])) if len(syms) > 1 else z3.Not(syms[0].z()))
+            if r == z3.unsat:
+                self.proved += len(syms)
+                return ok
+        for c in syms:
+            ok = self.prove(c, label, extra) and ok
+        return ok
 
 
 def _ceil_div(n, c):
